@@ -54,7 +54,7 @@ def run(ctx):
     out = common.Outcome()
     out.proof = common.proof_status(FAMILY, PROPFILE)
     pg = G.ProgGen(ctx.rng, shuffle=False)
-    n = ctx.scale(30, 600)
+    n = ctx.scale(30, 300)
     K = ctx.scale(2, 3)
     cases, metas, seen = [], [], set()
     stats = {'shapes': {}, 'permutations': 0, 'identical_order': 0, 'solved_pairs': 0}
